@@ -453,8 +453,7 @@ def r02_python(chk):
         tests = enclosing_tests(fn, call)
         conds = [(norm(t), pol) for t, pol in tests]
         want_sub = kname.endswith('y1y2')
-        has = [pol for t, pol in conds if t in sub_cond]
-        ok = has == [want_sub]
+        ok = implied_value(fn, call, 'self.y1 is not None and self.y2 is not None') is want_sub
         chk.ob('R02.7', ok, PANEL, fname, '%s branch' % kname, line=call.lineno,
                expected='called iff (self.y1 is not None and self.y2 is not None) is %s' % want_sub, got=conds,
                sample='%s under %s' % (kname, conds))
@@ -489,8 +488,74 @@ def r02_python(chk):
 # generic dispatch helper
 
 
+def implied_value(fn, call, cond_text):
+    """truth value of the condition `cond_text` (a boolean combination of `X is None` / `X is not None` atoms) that the tests enclosing
+    `call` force: True / False when every assignment of the atoms that satisfies the enclosing tests gives that value, None when the
+    tests do not decide it.  Local names bound once to a boolean expression (partial = y1 is not None and y2 is not None) are written
+    out first, and `self.y1` / a local `y1 = self.y1` are the same atom, so the spelling of the dispatch does not matter."""
+    import itertools
+    defs = local_defs(fn)
+    stores = {}
+    for n in ast.walk(fn):
+        if isinstance(n, ast.Name) and isinstance(n.ctx, (ast.Store, ast.Del)):
+            stores[n.id] = stores.get(n.id, 0) + 1
+
+    def expand(e, depth=0):
+        if isinstance(e, ast.Name) and stores.get(e.id) == 1 and len(defs.get(e.id, [])) == 1 and defs[e.id][0] is not None and depth < 4:
+            v = defs[e.id][0]
+            if isinstance(v, (ast.BoolOp, ast.Compare, ast.UnaryOp, ast.Name, ast.Attribute)):
+                return expand(v, depth + 1)
+        if isinstance(e, ast.BoolOp):
+            return ast.BoolOp(op=e.op, values=[expand(v, depth) for v in e.values])
+        if isinstance(e, ast.UnaryOp) and isinstance(e.op, ast.Not):
+            return ast.UnaryOp(op=e.op, operand=expand(e.operand, depth))
+        if isinstance(e, ast.Compare) and len(e.ops) == 1:
+            return ast.Compare(left=expand(e.left, depth), ops=e.ops, comparators=[expand(e.comparators[0], depth)])
+        return e
+    atoms = {}
+
+    def form(e):
+        if isinstance(e, ast.BoolOp):
+            return ('and' if isinstance(e.op, ast.And) else 'or', [form(v) for v in e.values])
+        if isinstance(e, ast.UnaryOp) and isinstance(e.op, ast.Not):
+            return ('not', form(e.operand))
+        if isinstance(e, ast.Compare) and len(e.ops) == 1 and isinstance(e.ops[0], (ast.Is, ast.IsNot)) and isinstance(e.comparators[0], ast.Constant) and e.comparators[0].value is None:
+            key = norm(e.left).replace('self.', '')
+            atoms.setdefault(key, len(atoms))
+            return ('atom', key) if isinstance(e.ops[0], ast.Is) else ('not', ('atom', key))
+        key = '?' + norm(e)
+        atoms.setdefault(key, len(atoms))
+        return ('atom', key)
+
+    def ev(f, asg):
+        if f[0] == 'atom':
+            return asg[f[1]]
+        if f[0] == 'not':
+            return not ev(f[1], asg)
+        vals = [ev(x, asg) for x in f[1]]
+        return all(vals) if f[0] == 'and' else any(vals)
+    target = form(expand(ast.parse(cond_text, mode='eval').body))
+    ctx = [(form(expand(t)), pol) for t, pol in enclosing_tests(fn, call)]
+    if len(atoms) > 12:
+        return None
+    keys = sorted(atoms)
+    seen = set()
+    for combo in itertools.product((False, True), repeat=len(keys)):
+        asg = dict(zip(keys, combo))
+        if all(ev(f, asg) == pol for f, pol in ctx):
+            seen.add(ev(target, asg))
+    return seen.pop() if len(seen) == 1 else None
+
+
 def branch_polarity(fn, call, cond_texts):
-    """polarity list of the enclosing tests whose text is in cond_texts"""
+    """polarity list of the enclosing tests whose text is in cond_texts; for the sub-interval condition: the truth value the enclosing
+    tests force on `y1 is not None and y2 is not None` (implied_value), however the dispatch is spelled"""
+    if cond_texts is SUB_COND:
+        v = implied_value(fn, call, 'self.y1 is not None and self.y2 is not None')
+        return [] if v is None else [v]
+    if cond_texts == {'cisNone'}:
+        v = implied_value(fn, call, 'c is None')
+        return [] if v is None else [v]
     return [pol for t, pol in enclosing_tests(fn, call) if norm(t) in cond_texts]
 
 
